@@ -84,6 +84,13 @@ Example v1_load_instance_object :
   end.
 Proof. exact ex1_four_object. Qed.
 
+(* a sweep may start at DC: v1_wf asks only that no frequency is negative (and that they ascend), so a first frequency of
+   exactly 0 is covered by v1_load, as it is by v2_load and by the NPD loader *)
+Example v1_load_dc_start_instance :
+  v1_wf ex1_dc /\ tokens ex1_dc_bytes = v1_stream ex1_dc /\ load_ts ex1_dc_bytes = Ok (v1_result ex1_dc) /\
+  xsview (o_freqs (v1_result ex1_dc)) = [inl (0 # 1); inl (1000000000 # 1)].
+Proof. exact ex1_dc_start. Qed.
+
 (* ==== equivalent spellings load to the same object ======================================================== *)
 
 (* v2_same_content: two well-formed version-2 files with the same type, format, R, port count, [Reference] values,
